@@ -18,14 +18,27 @@ PROP = dict(
                 'Oracles: process survives under ASan; documented failure '
                 'value or a result passing the functional oracle; live-block '
                 'differential against the fault-free run; long-lived objects '
-                'read back against a model and used again'),
+                'read back against a model and used again. Functional oracles '
+                'use public APIs only: a reported-successful encoding is '
+                'decoded by the library\'s own decoder (zero padded copy, then '
+                'exact-size copy under the ASan redzone) and compared with the '
+                'input; bitmaps are read through iterator / cardinality / '
+                'contains, dictionaries through size / lookup / find and an '
+                'encode-decode round trip; analysis results (PFOR threshold '
+                'meta, dictionary statistics split) are compared with the '
+                'fault-free run of the same call'),
     level_note=('exhaustive in k for each generated (API, input); the inputs '
                 'themselves are generated (rapidcheck) plus a fixed sweep of '
                 'every API x container state; trusts the compile-time '
                 'malloc/calloc/realloc/free rename of harness/vf_alloc.h (only '
                 'allocations made by /repo/src/*.c are failed, libc-internal '
                 'ones such as qsort scratch are not), the 65536-bit set model '
-                'and the round-trip decoders run fault-free'),
+                'and the round-trip decoders run fault-free; assumes no wire '
+                'layout of the PFOR / dictionary / float / bitmap streams and '
+                'no bitmap container type (state names are construction '
+                'recipes), so a decoder that crashes or over-reads on bytes a '
+                'faulted call reported as a successful encoding is itself the '
+                'violation (crash capture of the in-flight case)'),
     rule=('case = (api, state, 4 parameter bytes, array descriptor); one '
           'evaluation per (API, input, k) triple plus the fault-free run; '
           'non-trivial = k > 1 or the failed allocation site lies in a callee '
@@ -62,8 +75,12 @@ PROP = dict(
         'varintAdaptiveCountUnique is documented as approximate: `count` is '
         'accepted as its out-of-memory answer; varintPFORComputeThreshold '
         'reports failure through a zeroed meta',
-        'run containers below 4096 members are reached through '
-        'varintBitmapDecode of a well-formed run encoding (sorted, disjoint '
-        'runs); encoders get buffers larger than any bound (bounds are C03)',
+        'multi-run pre-states are reached by handing varintBitmapDecode '
+        'hand-built bytes in the present run wire form (sorted, disjoint '
+        'runs); these bytes are generator input only: if the decoder rejects '
+        'them or yields another set than the model, the fault-free run '
+        'notices and the case is skipped (baseline-unusable), no verdict '
+        'treats them as a valid encoding; encoders get buffers larger than '
+        'any bound (bounds are C03)',
     ],
 )
